@@ -45,7 +45,7 @@ fn bj(b: &Universal2DBox) -> serde_json::Value {
 
 pub fn run(tier: Tier) -> Report {
     let rep = Report::new("C15", tier);
-    rep.set_rule("all unordered sets of <= 3 integer-cornered boxes on a 5-point lattice and of 4 on a 4-point lattice (thorough: also 3 on a 6-point lattice) against exact cell counting, all 6 orderings of each 3-set; enumerated near-degenerate families (identical, shared / collinear edges, right-angle rotations, the angle menu of C08, 1..8 boxes) against inclusion-exclusion with an independent convex clipper. Non-trivial = at least two boxes overlap.");
+    rep.set_rule("all unordered sets of <= 3 integer-cornered boxes on a 5-point lattice and of 4 on a 4-point lattice (thorough: also 3 on a 6-point lattice) against exact cell counting, all 6 orderings of each 3-set; enumerated near-degenerate families (identical, shared / collinear edges, right-angle rotations, the angle menu of C08, 1..8 boxes) against inclusion-exclusion with an independent convex clipper; every ordered set of 2-3 boxes of a 4-box rotated menu x 6 preparations per box (polygon generated, then moved / turned / resized in place, with and without generating it again). Non-trivial = at least two boxes overlap.");
     rep.assume("exact integer cell counting / engine/src/geom.rs inclusion-exclusion; the crate's share is own/(area+1e-5), compared with tolerance 2e-5 + 1e-5/area");
     let evals = AtomicU64::new(0);
     let nontrivial = AtomicU64::new(0);
@@ -199,7 +199,69 @@ pub fn run(tier: Tier) -> Report {
             }
         }
     });
-    let e = evals.load(Ordering::Relaxed);
+        // prepared-then-changed boxes: a rotated box whose polygon was generated (gen_vertices) and which was then
+    // moved / turned / resized in place - with or without generating the polygon again - owns what a freshly
+    // constructed box with the same fields owns
+    {
+        let prep = |t: &Universal2DBox, how: usize| -> Universal2DBox {
+            let mut b = match how {
+                0 => return t.clone(),
+                1 | 2 => Universal2DBox::new(t.xc + 7.0, t.yc - 3.0, t.angle, t.aspect, t.height),
+                3 | 4 => Universal2DBox::new(t.xc, t.yc, Some(t.angle.unwrap_or(0.0) + 0.9), t.aspect, t.height),
+                _ => Universal2DBox::new(t.xc, t.yc, t.angle, t.aspect * 2.0, t.height * 0.5),
+            };
+            b.gen_vertices();
+            b.xc = t.xc;
+            b.yc = t.yc;
+            b.aspect = t.aspect;
+            b.height = t.height;
+            match t.angle {
+                Some(a) => b.rotate_mut(a),
+                None => b.angle = None,
+            }
+            if how == 2 || how == 4 {
+                b.gen_vertices(); // generated again after the change
+            }
+            b
+        };
+        let menu: Vec<Universal2DBox> = vec![
+            Universal2DBox::new(0.0, 0.0, Some(0.3), 2.0, 2.0),
+            Universal2DBox::new(1.0, 0.5, Some(-0.5), 0.5, 4.0),
+            Universal2DBox::new(2.0, 0.0, Some(PI / 2.0), 2.0, 2.0),
+            Universal2DBox::new(0.5, 1.5, Some(1.1), 1.0, 3.0),
+        ];
+        let mut n = 0u64;
+        for a in 0..menu.len() {
+            for b in 0..menu.len() {
+                for c in 0..=menu.len() {
+                    if a == b || c == a || c == b {
+                        continue;
+                    }
+                    let mut ts = vec![menu[a].clone(), menu[b].clone()];
+                    if c < menu.len() {
+                        ts.push(menu[c].clone());
+                    }
+                    let Ok(base) = shares(&ts) else { continue };
+                    for code in 1..6usize.pow(ts.len() as u32) {
+                        let mut k = code;
+                        let bs: Vec<Universal2DBox> = ts.iter().map(|t| { let h = k % 6; k /= 6; prep(t, h) }).collect();
+                        n += 1;
+                        match shares(&bs) {
+                            Ok(v) => {
+                                if v.iter().zip(base.iter()).any(|(x, y)| (x - y).abs() > 1e-6) {
+                                    rep.violation(Violation { key: "own-area/prepared-then-changed-box".into(), what: format!("shares {v:?} for boxes whose polygons were generated before they were changed in place (preparation code {code}), {base:?} for freshly constructed boxes with the same fields"), replay: json!({"boxes":ts.iter().map(bj).collect::<Vec<_>>(),"preparation_code":code}) });
+                                }
+                            }
+                            Err(e) => rep.violation(Violation { key: "own-area/panic".into(), what: e, replay: json!({"boxes":ts.iter().map(bj).collect::<Vec<_>>(),"preparation_code":code}) }),
+                        }
+                    }
+                }
+            }
+        }
+        evals.fetch_add(n, Ordering::Relaxed);
+        rep.extra("prepared_then_changed_sets", json!(n));
+    }
+let e = evals.load(Ordering::Relaxed);
     rep.add(e, e, e, e);
     rep.distinct_count(nontrivial.load(Ordering::Relaxed));
     rep.sample(json!({"integer_boxes":[[0,0,2,2],[1,1,3,3],[2,2,4,4]],"expected_shares":[0.75,0.5,0.75]}));
